@@ -91,6 +91,7 @@ def monitor(driver, doc, text, prep, o):
     try:
         root = M.parse_rule(doc)
     except M.Unsupported:
+        ctx.event("differential_skipped:unsupported form")
         return
     fl = fixed_len(root)
     if fl is not None and not has_any:
@@ -100,7 +101,9 @@ def monitor(driver, doc, text, prep, o):
                 return
         ctx.event("fixed_length_checked", len(o.real_windows))
     # (d) differential against R-dsl (strict for @any rules too; F7 attributed by quirk)
-    if o.verdict != "held":
+    if o.model_unsupported is not None:
+        ctx.event("differential_skipped:" + o.model_unsupported[:30])
+    elif o.verdict != "held":
         if has_any:
             key = dsl.attribute(yaml.safe_load(text), prep, o, QUIRKS)
             ctx.disagreement(case, o.why + f" | regex={o.regex[:500]}", key)
